@@ -1,0 +1,35 @@
+//go:build verif
+
+/*
+Copyright (c) Meta Platforms, Inc. and affiliates.
+Licensed under the Apache License, Version 2.0 (the "License");
+you may not use this file except in compliance with the License.
+You may obtain a copy of the License at
+    http://www.apache.org/licenses/LICENSE-2.0
+Unless required by applicable law or agreed to in writing, software
+distributed under the License is distributed on an "AS IS" BASIS,
+WITHOUT WARRANTIES OR CONDITIONS OF ANY KIND, either express or implied.
+See the License for the specific language governing permissions and
+limitations under the License.
+*/
+
+package db
+
+import "math/rand"
+
+// This file is only compiled with the `verif` build tag. It gives the external
+// verification harness the two seams it cannot reach through the public API.
+
+// NewDBFromDBIForVerif wraps an arbitrary DBI implementation (an instrumented
+// backend) into a DB, exactly as Open does for the built-in drivers.
+func NewDBFromDBIForVerif(dbi DBI) *DB {
+	return &DB{dbi: dbi}
+}
+
+// SetRandForVerif replaces the package-private random generator used by the
+// weighted random sampling and returns the previous one.
+func SetRandForVerif(r *rand.Rand) *rand.Rand {
+	old := localRand
+	localRand = r
+	return old
+}
